@@ -186,6 +186,36 @@ def hand_const_return(x: fp.Real, y: fp.Real, xs: list[fp.Real], k: fp.Real):
         if 1 < 2:
             return x
     return x + 1''',
+    'hand_tuple_holes': '''@fp.fpy
+def hand_tuple_holes(x: fp.Real, y: fp.Real, xs: list[fp.Real], k: fp.Real):
+    with fp.MPFloatContext(5):
+        _, b = (1.0, 2.0)
+        a, _, c = (3, 4, 5)
+        (_, d), e = ((6, 7), 8)
+        t2 = (0.5, 1.5, 2.5)
+        _, _, g = t2
+        if b > 1.5:
+            h = c + d
+        else:
+            h = a + e
+    return (b + x, c, d, e, g, h)''',
+    'hand_store_through_call': '''@fp.fpy
+def hand_stc_same(zs: list[fp.Real]) -> list[fp.Real]:
+    return zs
+
+@fp.fpy
+def hand_stc_store(zs: list[fp.Real], v: fp.Real) -> fp.Real:
+    ys = hand_stc_same(zs)
+    ys[0] = v
+    return 0
+
+@fp.fpy
+def hand_store_through_call(x: fp.Real, y: fp.Real, xs: list[fp.Real], k: fp.Real):
+    us = [x, y]
+    t1 = hand_stc_store(us, 7)
+    vs = [y, x, 1]
+    hand_stc_store(vs, k)
+    return (us[0], vs[0])''',
     'hand_fold_ctx': '''@fp.fpy
 def hand_fold_ctx(x: fp.Real, y: fp.Real, xs: list[fp.Real], k: fp.Real):
     a = 1.25 * 3
